@@ -6,3 +6,7 @@ import Gittuf.Props.C01
 #print axioms Gittuf.World.F2_witness
 #print axioms Gittuf.World.F3_witness
 #print axioms Gittuf.World.good_history_verifies
+#print axioms Gittuf.World.relLoop_sound_gen
+#print axioms Gittuf.World.lookForFix_partition
+#print axioms Gittuf.World.C01_relative_sound
+#print axioms Gittuf.World.C01_full_sound
